@@ -152,6 +152,14 @@ func (r *tr) kop(mode string) *kop {
 	case "vacuum":
 		op.h, op.before = r.i(), r.z()
 		r.names()
+	case "cvacuum":
+		op.h, op.before = r.i(), r.z()
+		r.names()
+		op.seed = r.z()
+		for n := (r.i() + 1) * 2; n > 0; n-- {
+			r.names()
+			r.names()
+		}
 	case "get":
 		op.h, op.key = r.i(), r.sval()
 	case "dump":
